@@ -1,32 +1,39 @@
 /-
-  OutCSCache — WHEN the contour lines behind the out cross-section are built (C08, second part of the model).
+  OutCSCache — WHEN the contour lines behind the out cross-section are built, and FROM WHICH ROLLS (C08, second part of the model).
 
   `OutCS.lean` says what `out_cross_section(rp, width)` builds FROM `rp.contour_lines`.  The contour lines are memoised on
-  the pass (`_contour_lines`), the gap they are placed at is a hook value (cached in `__cache__`, and possibly an
-  implementation that answers differently from iteration to iteration, e.g. a mill spring), and the solution loop of
-  `Unit.solve` decides when memo and cache are dropped.  This file is the executable model of that protocol; the pieces
-  of source it is instantiated with are regenerated on every run (`Gen/C08Cache.lean`):
+  the pass (`_contour_lines`); the gap they are placed at is a hook value (cached in `__cache__`, and possibly an
+  implementation that answers differently from iteration to iteration, e.g. a mill spring); the contour they are made of is
+  the roll's `contour_line`, itself a memo on the roll (`Roll._contour_line`) over the roll's hook `contour_points` (cached in
+  the roll's `__cache__`), whose implementation reads the groove that is mounted on the roll at that moment — a plain
+  attribute (`roll.groove`) the user may assign between two solves, as he may replace the roll object (`rp.roll`); and the
+  solution loop of `Unit.solve` decides when memos and caches are dropped.  This file is the executable model of that
+  protocol; the pieces of source it is instantiated with are regenerated on every run (`Gen/C08Cache.lean`):
 
-    * `Memo`              `TwoRollPass.contour_lines` / `ThreeRollPass.contour_lines`: is there the guard
-                          `if self._contour_lines: return self._contour_lines`, is the built value stored
+    * `Memo`              `TwoRollPass.contour_lines` / `ThreeRollPass.contour_lines` and `Roll.contour_line`: is there the guard
+                          `if self._contour_lines: return self._contour_lines`, is the built value stored, does the
+                          construction read `self.roll.groove.…` directly (three rolls: the usable width in the shift)
     * `List (List ROp)`   the bodies of `reevaluate_cache` along the MRO of the pass class (most derived first,
-                          `HookHost.reevaluate_cache` last), statement by statement
+                          `HookHost.reevaluate_cache` last) and along the MRO of the pass's roll class, statement by statement
     * `List LStep`        the body of the solution loop of `Unit.solve`, call by call
     * `List IOp`          `BaseRollPass.init_solve`
 
-  State: `γ` is the type of the gap (any type: the model only moves the values around).  `lines` = the gap the memoised
-  contour lines were built at, `gapC` = the cached value of the hook `gap`, `ucs` = the gap of the lines the cached
-  `usable_cross_section` was built from, `used` = for every evaluation of the root hook `OutProfile.cross_section` the
-  gap of the lines it was built from (latest first).  `g` is what the gap hook's implementation answers at that moment.
+  State: `γ` is the type of the gap, `κ` the type of what identifies a groove (any types: the model only moves the values
+  around).  A `Prov` says where contour lines come from: the gap they were placed at, the groove whose contour the roll's
+  contour line carried, and the groove that was read directly.  `lines` = the memoised contour lines, `gapC` = the cached
+  value of the hook `gap`, `ucs` = the lines the cached `usable_cross_section` was built from, `used` = for every evaluation
+  of the root hook `OutProfile.cross_section` the lines it was built from (latest first), `cpC` = the cached value of the
+  roll's hook `contour_points`, `rline` = the roll's memoised contour line.  `g` is what the gap hook's implementation
+  answers at that moment, `k` the groove that is mounted on the roll at that moment.
 -/
 
 namespace OutCS.Cache
 
-/-- a statement of a `reevaluate_cache` method -/
+/-- a statement of a `reevaluate_cache` method (of the pass classes or of the roll classes) -/
 inductive ROp where
   | super       -- `super().reevaluate_cache()`
   | roll        -- `self.roll.reevaluate_cache()`
-  | reset       -- `self._contour_lines = None`
+  | reset       -- `self._contour_lines = None` (pass) / `self._contour_line = None` (roll)
   | recompute   -- `HookHost.reevaluate_cache`: every cached hook value is computed again, in the order of the cache
   deriving Repr, DecidableEq, Inhabited
 
@@ -46,89 +53,157 @@ inductive IOp where
   | seed        -- `self.out_profile.cross_section = self.usable_cross_section`
   deriving Repr, DecidableEq, Inhabited
 
-/-- shape of the `contour_lines` property -/
+/-- shape of a memoising property (`contour_lines` of the pass, `contour_line` of the roll) -/
 structure Memo where
   guarded : Bool    -- `if self._contour_lines: return self._contour_lines` comes first
-  stored : Bool     -- the built `MultiLineString` is assigned to `self._contour_lines`
+  stored : Bool     -- the built value is assigned to `self._contour_lines`
+  direct : Bool := false   -- the construction also reads `self.roll.groove.<…>` directly (not through the roll's memo)
   deriving Repr, DecidableEq, Inhabited
 
-structure St (γ : Type) where
-  lines : Option γ := none
+/-- the classes of one kind of pass: the two memos and the two `reevaluate_cache` chains -/
+structure Pass where
+  memo : Memo                      -- `<pass class>.contour_lines`
+  rollMemo : Memo                  -- `Roll.contour_line`
+  chain : List (List ROp)          -- `reevaluate_cache` along the MRO of the pass class
+  rollChain : List (List ROp)      -- `reevaluate_cache` along the MRO of `<pass class>.Roll`
+  deriving Repr, Inhabited
+
+/-- where contour lines come from -/
+structure Prov (γ κ : Type) where
+  gap : γ                 -- the gap they were placed at
+  line : κ                -- the groove whose contour the roll's contour line carried when they were built
+  direct : Option κ       -- the groove read directly during the construction (if it reads one)
+  deriving Repr, DecidableEq, Inhabited
+
+structure St (γ κ : Type) where
+  lines : Option (Prov γ κ) := none
   gapC : Option γ := none
-  ucs : Option γ := none
-  used : List γ := []
+  ucs : Option (Prov γ κ) := none
+  used : List (Prov γ κ) := []
+  cpC : Option κ := none
+  rline : Option κ := none
   deriving Repr, Inhabited
 
 section run
-variable {γ : Type}
+variable {γ κ : Type}
 
 /-- `self.gap`: the cached value, else the implementation's answer (which is cached then) -/
-def readGap (g : γ) (s : St γ) : γ × St γ :=
+def readGap (g : γ) (s : St γ κ) : γ × St γ κ :=
   match s.gapC with
   | some c => (c, s)
   | none => (g, { s with gapC := some g })
 
-/-- `self.contour_lines` -/
-def readLines (m : Memo) (g : γ) (s : St γ) : γ × St γ :=
-  match (if m.guarded then s.lines else none) with
+/-- `roll.contour_points`: the cached value, else the implementation's answer `self.groove.contour_points` (cached then) -/
+def readCP (k : κ) (s : St γ κ) : κ × St γ κ :=
+  match s.cpC with
+  | some c => (c, s)
+  | none => (k, { s with cpC := some k })
+
+/-- `roll.contour_line` -/
+def readRollLine (rm : Memo) (k : κ) (s : St γ κ) : κ × St γ κ :=
+  match (if rm.guarded then s.rline else none) with
   | some l => (l, s)
   | none =>
-    let r := readGap g s
-    (r.1, if m.stored then { r.2 with lines := some r.1 } else r.2)
+    let r := readCP k s
+    (r.1, if rm.stored then { r.2 with rline := some r.1 } else r.2)
+
+/-- `self.contour_lines` -/
+def readLines (p : Pass) (g : γ) (k : κ) (s : St γ κ) : Prov γ κ × St γ κ :=
+  match (if p.memo.guarded then s.lines else none) with
+  | some l => (l, s)
+  | none =>
+    let rl := readRollLine p.rollMemo k s
+    let rg := readGap g rl.2
+    let v : Prov γ κ := { gap := rg.1, line := rl.1, direct := if p.memo.direct then some k else none }
+    (v, if p.memo.stored then { rg.2 with lines := some v } else rg.2)
 
 /-- `self.usable_cross_section` (a cached hook whose implementation reads `contour_lines`) -/
-def readUcs (m : Memo) (g : γ) (s : St γ) : St γ :=
+def readUcs (p : Pass) (g : γ) (k : κ) (s : St γ κ) : St γ κ :=
   match s.ucs with
   | some _ => s
-  | none => let r := readLines m g s; { r.2 with ucs := some r.1 }
+  | none => let r := readLines p g k s; { r.2 with ucs := some r.1 }
 
-/-- `HookHost.reevaluate_cache`: the cached values are computed again in the order in which they entered the cache — the
-    gap (read BY the contour lines) before the usable cross-section (which reads the contour lines) -/
-def recompute (m : Memo) (g : γ) (s : St γ) : St γ :=
+/-- `HookHost.reevaluate_cache` on the pass: the cached values are computed again in the order in which they entered the
+    cache — the gap (read BY the contour lines) before the usable cross-section (which reads the contour lines) -/
+def recompute (p : Pass) (g : γ) (k : κ) (s : St γ κ) : St γ κ :=
   let s1 := match s.gapC with
     | some _ => { s with gapC := some g }
     | none => s
   match s1.ucs with
-  | some _ => let r := readLines m g s1; { r.2 with ucs := some r.1 }
+  | some _ => let r := readLines p g k s1; { r.2 with ucs := some r.1 }
   | none => s1
 
-/-- one `reevaluate_cache` body; `sup` = the rest of the chain -/
-def runOps (m : Memo) (g : γ) (sup : St γ → St γ) : List ROp → St γ → St γ
+/-- `HookHost.reevaluate_cache` on the roll: a cached `contour_points` is computed again from the groove mounted now -/
+def recomputeRoll (k : κ) (s : St γ κ) : St γ κ :=
+  match s.cpC with
+  | some _ => { s with cpC := some k }
+  | none => s
+
+/-- one `reevaluate_cache` body of the roll classes; `sup` = the rest of the chain -/
+def runRollOps (k : κ) (sup : St γ κ → St γ κ) : List ROp → St γ κ → St γ κ
   | [], s => s
-  | .super :: r, s => runOps m g sup r (sup s)
-  | .roll :: r, s => runOps m g sup r s
-  | .reset :: r, s => runOps m g sup r { s with lines := none }
-  | .recompute :: r, s => runOps m g sup r (recompute m g s)
+  | .super :: r, s => runRollOps k sup r (sup s)
+  | .roll :: r, s => runRollOps k sup r s
+  | .reset :: r, s => runRollOps k sup r { s with rline := none }
+  | .recompute :: r, s => runRollOps k sup r (recomputeRoll k s)
+
+/-- `self.roll.reevaluate_cache()` -/
+def runRollChain (k : κ) : List (List ROp) → St γ κ → St γ κ
+  | [], s => s
+  | ops :: rest, s => runRollOps k (runRollChain k rest) ops s
+
+/-- one `reevaluate_cache` body of the pass classes; `sup` = the rest of the chain -/
+def runOps (p : Pass) (g : γ) (k : κ) (sup : St γ κ → St γ κ) : List ROp → St γ κ → St γ κ
+  | [], s => s
+  | .super :: r, s => runOps p g k sup r (sup s)
+  | .roll :: r, s => runOps p g k sup r (runRollChain k p.rollChain s)
+  | .reset :: r, s => runOps p g k sup r { s with lines := none }
+  | .recompute :: r, s => runOps p g k sup r (recompute p g k s)
 
 /-- `self.reevaluate_cache()` on the pass: the most derived body, `super()` continues with the next one -/
-def runChain (m : Memo) (g : γ) : List (List ROp) → St γ → St γ
+def runChain (p : Pass) (g : γ) (k : κ) : List (List ROp) → St γ κ → St γ κ
   | [], s => s
-  | ops :: rest, s => runOps m g (runChain m g rest) ops s
+  | ops :: rest, s => runOps p g k (runChain p g k rest) ops s
 
-def step (m : Memo) (chain : List (List ROp)) (g : γ) : LStep → St γ → St γ
-  | .selfReeval, s => runChain m g chain s
-  | .rootHooks, s => let r := readLines m g s; { r.2 with used := r.1 :: r.2.used }
+def step (p : Pass) (g : γ) (k : κ) : LStep → St γ κ → St γ κ
+  | .selfReeval, s => runChain p g k p.chain s
+  | .rootHooks, s => let r := readLines p g k s; { r.2 with used := r.1 :: r.2.used }
   | _, s => s
 
-/-- one iteration of the solution loop while the gap hook's implementation answers `g` -/
-def iter (m : Memo) (chain : List (List ROp)) (g : γ) : List LStep → St γ → St γ
+/-- one iteration of the solution loop while the gap hook's implementation answers `g` and groove `k` is mounted -/
+def iter (p : Pass) (g : γ) (k : κ) : List LStep → St γ κ → St γ κ
   | [], s => s
-  | st :: rest, s => iter m chain g rest (step m chain g st s)
+  | st :: rest, s => iter p g k rest (step p g k st s)
 
-def initSolve (m : Memo) (g : γ) : List IOp → St γ → St γ
+def initSolve (p : Pass) (g : γ) (k : κ) : List IOp → St γ κ → St γ κ
   | [], s => s
-  | .super :: r, s => initSolve m g r s
-  | .reset :: r, s => initSolve m g r { s with lines := none }
-  | .seed :: r, s => initSolve m g r (readUcs m g s)
+  | .super :: r, s => initSolve p g k r s
+  | .reset :: r, s => initSolve p g k r { s with lines := none }
+  | .seed :: r, s => initSolve p g k r (readUcs p g k s)
 
-def iterate (m : Memo) (chain : List (List ROp)) (loop : List LStep) : List γ → St γ → St γ
+def iterate (p : Pass) (loop : List LStep) (k : κ) : List γ → St γ κ → St γ κ
   | [], s => s
-  | g :: gs, s => iterate m chain loop gs (iter m chain g loop s)
+  | g :: gs, s => iterate p loop k gs (iter p g k loop s)
 
-/-- `Unit.solve` on a pass in state `s0` (fresh or used): `init_solve` while the gap hook answers `g0`, then one iteration
-    per element of `gs` -/
-def solve (m : Memo) (chain : List (List ROp)) (loop : List LStep) (init : List IOp) (g0 : γ) (gs : List γ) (s0 : St γ) : St γ :=
-  iterate m chain loop gs (initSolve m g0 init s0)
+/-- `Unit.solve` on a pass in state `s0` (fresh or used) while groove `k` is mounted: `init_solve` while the gap hook
+    answers `g0`, then one iteration per element of `gs` -/
+def solve (p : Pass) (loop : List LStep) (init : List IOp) (k : κ) (g0 : γ) (gs : List γ) (s0 : St γ κ) : St γ κ :=
+  iterate p loop k gs (initSolve p g0 k init s0)
+
+/-- what the user does with ONE pass object, one after the other -/
+inductive Act (γ κ : Type) where
+  | solve (k : κ) (g0 : γ) (gs : List γ)   -- `rp.solve(...)` with groove `k` on the rolls (mounted by `rp.roll.groove = …` before)
+  | newRoll                                 -- `rp.roll = <a new roll object>`: neither hook cache nor memo on the roll
+  deriving Repr, Inhabited
+
+def act (p : Pass) (loop : List LStep) (init : List IOp) : Act γ κ → St γ κ → St γ κ
+  | .solve k g0 gs, s => solve p loop init k g0 gs s
+  | .newRoll, s => { s with cpC := none, rline := none }
+
+/-- a history of one pass object -/
+def history (p : Pass) (loop : List LStep) (init : List IOp) : List (Act γ κ) → St γ κ → St γ κ
+  | [], s => s
+  | a :: rest, s => history p loop init rest (act p loop init a s)
 
 end run
 
